@@ -474,3 +474,27 @@ def frame_carrying_any_verb_is_claimed_by_the_packet_handler_only():
             ensures("claimed-by-the-packet-handler-only", claimed_by(data) == ["packet"])
     cover("reached-end", True)
 
+
+
+@harness(prop="C04", target="geckolib.driver.protocol.watercare:GeckoWatercareErrorHandler.can_handle", name="a_datagram_belongs_to_the_handler_of_its_leading_verb_only")
+def a_datagram_belongs_to_the_handler_of_its_leading_verb_only():
+    """ground over the verb table: what a datagram CONTAINS after its verb (payload bytes that spell another verb) never makes
+    another handler accept it, and a truncated verb is accepted by nobody"""
+    for verb in ALL_VERBS:
+        owners = claimed_by(verb + b"\x01\x02\x03")
+        for other in ALL_VERBS:
+            if other is not verb:
+                ensures("payload-spelling-another-verb-changes-nothing:" + verb.decode("latin1"),
+                        claimed_by(verb + b"\x01\x02\x03" + other + b"\x04") == owners)
+        for cut in range(1, len(verb)):
+            ensures("truncated-verb-is-claimed-by-nobody:" + verb.decode("latin1"), claimed_by(verb[0:cut]) == [])
+    cover("reached-end", True)
+
+
+def _register_sequence_byte_layout():
+    from contracts import c16_seq
+    harness(prop="C04", target="geckolib.driver.protocol.firmware:GeckoUpdateFirmwareProtocolHandler.request",
+            name="sequence_number_is_one_byte_for_every_request_kind")(c16_seq.every_request_kind_puts_its_number_into_one_byte)
+
+
+_register_sequence_byte_layout()
